@@ -75,10 +75,26 @@ class Ctx:
         return d
 
     # ------------------------------------------------------------------ build
+    def harness_dir(self):
+        """The harness module. Normally /verif/harness (go.mod replaces the node module by /repo).
+        With VERIF_REPO set to another tree (mutation testing on a scratch copy, so that /repo
+        itself is never modified while other checks run) the module is copied into the scratch
+        directory with the replace directive pointing at that tree."""
+        if os.path.abspath(REPO) == "/repo":
+            return HARNESS
+        d = os.path.join(self.scratch, "harness")
+        if not os.path.isdir(d):
+            shutil.copytree(HARNESS, d)
+            gm = open(os.path.join(d, "go.mod")).read()
+            gm = re.sub(r"replace com\.tuntun\.rangers/node => \S+", "replace com.tuntun.rangers/node => " + os.path.abspath(REPO), gm)
+            open(os.path.join(d, "go.mod"), "w").write(gm)
+        return d
+
     def build(self, cmd, race=False):
-        """Build harness/cmd/<cmd> against /repo's current working tree."""
+        """Build harness/cmd/<cmd> against the node's current working tree."""
         out = os.path.join(self.bindir, cmd + ("-race" if race else ""))
-        gosum = os.path.join(HARNESS, "go.sum")
+        hd = self.harness_dir()
+        gosum = os.path.join(hd, "go.sum")
         try:
             shutil.copyfile(os.path.join(REPO, "go.sum"), gosum)
         except OSError:
@@ -88,7 +104,7 @@ class Ctx:
             args.append("-race")
         args.append("./cmd/" + cmd)
         t = time.time()
-        p = subprocess.run(args, cwd=HARNESS, env=GOENV, stdout=subprocess.PIPE,
+        p = subprocess.run(args, cwd=hd, env=GOENV, stdout=subprocess.PIPE,
                            stderr=subprocess.STDOUT, text=True)
         if p.returncode != 0:
             print(p.stdout)
